@@ -14,7 +14,7 @@ from common import *  # noqa
 
 PROP = "C03"
 TABLES = ["C03_AnsiSequences"]
-MODELS = [("c03", "Extract/ExC03.v", "run_C03")]
+MODELS = [("c03", "Extract/ExC03.v", "run_C03_all")]
 
 ESC = "\x1b"
 START = "\x1b[200~"
@@ -110,13 +110,35 @@ class Impl:
                 else:
                     kps = with_watchdog(lambda: inp.flush_keys(), 5)
                 prefix, ip, pb = self.state(p)
-                out.append([[[_canon_key(kp.key, self.Keys, self.kid), S(kp.data)] for kp in kps], S(prefix), ip, S(pb), 0])
+                pend = list(inp.stdin_reader._stdin_decoder.getstate()[0])
+                out.append([[[_canon_key(kp.key, self.Keys, self.kid), S(kp.data)] for kp in kps], S(prefix), ip, S(pb), 0, pend])
         except Exception as e:  # noqa
             out.append([-99])
         finally:
             os.close(w)
             f.close()
         return out
+
+
+    def regexes(self, s):
+        """the four compiled regexes of /repo's vt100_parser on s"""
+        from prompt_toolkit.input import vt100_parser as vp
+        return [bool(vp._cpr_response_re.match(s)), bool(vp._mouse_event_re.match(s)),
+                bool(vp._cpr_response_prefix_re.match(s)), bool(vp._mouse_event_prefix_re.match(s))]
+
+    def decoder(self):
+        """a fresh incremental decoder exactly as PosixStdinReader makes it"""
+        from prompt_toolkit.input.posix_utils import PosixStdinReader
+        if not hasattr(self, "_reader"):
+            r, w = os.pipe()
+            self._reader = PosixStdinReader(r)
+            self._reader_fds = (r, w)
+        return self._reader._stdin_decoder_cls(errors=self._reader.errors)
+
+    def decode_once(self, bs):
+        d = self.decoder()
+        text = d.decode(bytes(bs))
+        return [S(text), list(d.getstate()[0]), 0]
 
 
 # --------------------------------------------------------------------------
@@ -285,7 +307,7 @@ def cpr_mouse_streams(rng):
             out.append("\x1b[%s;%s;3m" % (a, b))
     out += ["\x1b[Mabc", "\x1b[M\x1b[A", "\x1b[Ma\nc", "\x1b[M\n\n\n", "\x1b[M   ", "\x1b[M\x1b\x1b\x1b", "\x1b[Mab", "\x1b[M",
             "\x1b[<M", "\x1b[<;M", "\x1b[;R", "\x1b[1;R", "\x1b[;1R", "\x1b[1;2;3R", "\x1b[1R", "\x1b[<1;2R", "\x1b[<<1M",
-            "\x1b[1;2x", "\x1b[1;2\n", "\x1b[12;3", "\x1b[<35;1;2", "\x1b[1;2R\n", "\x1b[<0;1;1m", "\x1b[M\x1b", "\x1b[M\x1b[",
+            "\x1b[1;2x", "\x1b[1;2\n", "\x1b[12;3", "\x1b[<35;1;2", "\x1b[1;2R\n", "\x1b[<0;1;1m", "\x1b[M\x1b", "\x1b[M\x1b[", "\x1b[M\x1b\t\n", "\x1b[M\n\x1b\t",
             "\x1b[1;5", "\x1b[1;5A", "\x1b[1;5AR", "\x1b[200", "\x1b[200;1R", "\x1b[2001~", "\x1b[<200~", "\x1b[;200~"]
     return out
 
@@ -403,6 +425,29 @@ def gen_pipe_cases(chk):
     return out
 
 
+RE_ALPHA = ["\x1b", "[", "<", ";", "0", "7", "\u0663", "M", "m", "R", "\n", "a", "~"]
+U8_ALPHA = [0x00, 0x41, 0x7f, 0x80, 0x8f, 0x90, 0x9f, 0xa0, 0xbf, 0xc0, 0xc1, 0xc2, 0xdf, 0xe0, 0xe1, 0xec, 0xed, 0xee, 0xef,
+            0xf0, 0xf1, 0xf3, 0xf4, 0xf5, 0xff]
+
+
+def regex_scope(chk):
+    """every string of length <= 3 over RE_ALPHA, and ESC [ + every tail of length <= 4 (quick) / 5 (thorough)"""
+    out = [""]
+    for n in range(1, 4):
+        out += ["".join(t) for t in itertools.product(RE_ALPHA, repeat=n)]
+    for n in range(0, (6 if chk.tier == "thorough" else 5)):
+        out += ["\x1b[" + "".join(t) for t in itertools.product(RE_ALPHA, repeat=n)]
+    return out
+
+
+def utf8_scope(chk):
+    """every byte string of length <= 3 (quick) / 4 (thorough) over the class-boundary bytes"""
+    out = [[]]
+    for n in range(1, (5 if chk.tier == "thorough" else 4)):
+        out += [list(t) for t in itertools.product(U8_ALPHA, repeat=n)]
+    return out
+
+
 def decode_ops(byte_ops):
     """text schedule the parser must see: incremental UTF-8/surrogateescape decoding of the reads"""
     dec = codecs.getincrementaldecoder("utf-8")(errors="surrogateescape")
@@ -418,12 +463,12 @@ def show_case(case):
 def main(tier):
     chk = Check(PROP, tier)
     pr = chk.proofs("Props/C03.v", tables=TABLES)
-    okm, logm = build_model("c03", "Extract/ExC03.v", "run_C03", tables=TABLES)
+    okm, logm = build_model("c03", "Extract/ExC03.v", "run_C03_all", tables=TABLES)
     if not okm and not getattr(pr, "gen_ok", True):
         # the table generator failed closed (reported by proof_gate below): go on with the
         # last generated table so that the correspondence run can still find a failing input
         chk.note("gen/gen_t_c03.py failed closed: " + (pr.gen_log or "").strip()[-300:])
-        okm, logm = build_model("c03", "Extract/ExC03.v", "run_C03", tables=())
+        okm, logm = build_model("c03", "Extract/ExC03.v", "run_C03_all", tables=())
     if not okm:
         chk.violation("tie", "model does not build: " + logm[-400:], {"kind": "model-build"}, {"log": logm[-3000:]}, no_input=True)
         return chk.finish()
@@ -492,26 +537,57 @@ def main(tier):
     pcases = gen_pipe_cases(chk)
     ptext = [decode_ops(b) for b in pcases]
     pimpl = [impl.run_pipe(b) for b in pcases]
-    pmodel = run_model("c03", ptext)
+    pmodel = run_model("c03", [[7, b] for b in pcases])
     chk.coverage["input_distribution"]["pipe_vt100input"] = len(pcases)
     for b, t, a, m in zip(pcases, ptext, pimpl, pmodel):
-        chk.count_case(t, True)
+        chk.count_case([7, b], True)
         if sx_norm(a) != m:
             # oracle for the pipe: Vt100Input must emit what a bare Vt100Parser emits for the decoded reads
-            direct = sx_norm(impl.run(t)[0])
+            direct = [x[:5] for x in sx_norm(impl.run(t)[0])]
+            mine = [x[:5] for x in sx_norm(a)]
             j = next((j for j, (x, y) in enumerate(zip(sx_norm(a), m)) if x != y), min(len(a), len(m)) - 1)
-            chk.violation("correspondence", "Vt100Input over a pipe differs from the model: reads=%r: after read/flush %d impl=%r model=%r" % (
+            chk.violation("correspondence", "Vt100Input over a pipe differs from the model: reads=%r: after read/flush %d impl=%r model=%r (keys returned, prefix, in_paste, paste_buffer, oof, undecoded bytes)" % (
                 [bytes(op[1]) if op[0] == 0 else "flush" for op in b], j, sx_norm(a)[j:j + 1], m[j:j + 1]),
                 {"kind": "correspondence", "op": "pipe"}, {"byte_ops": b, "impl": sx_norm(a), "model": m},
-                no_input=(direct == sx_norm(a)))
+                no_input=(direct == mine))
         else:
             chk.coverage["traces_validated_against_impl"] += 1
+
+    # the four regexes of /repo against the hand recognisers, exhaustively on a small scope
+    rs = regex_scope(chk)
+    rimpl = [[int(x) for x in impl.regexes(x_)] for x_ in rs]
+    rmodel = run_model("c03", [[8, S(x_)] for x_ in rs])
+    nre = 0
+    for x_, a, m in zip(rs, rimpl, rmodel):
+        if a != m:
+            nre += 1
+            if nre <= 3:
+                chk.violation("tie", "hand recogniser differs from re on %r: re (cpr, mouse, cpr_prefix, mouse_prefix)=%r model=%r" % (x_, a, m),
+                              {"kind": "regex"}, {"string": x_, "impl": a, "model": m}, no_input=True)
+    chk.coverage["input_distribution"]["regex_scope"] = len(rs)
+    chk.coverage["traces_validated_against_impl"] += len(rs) - nre
+    chk.coverage["evaluations"] += len(rs)
+
+    # PosixStdinReader's decoder against the Coq UTF-8 decoder, exhaustively on a small scope
+    us = utf8_scope(chk)
+    uimpl = [impl.decode_once(b) for b in us]
+    umodel = run_model("c03", [[9, b] for b in us])
+    nu = 0
+    for b, a, m in zip(us, uimpl, umodel):
+        if sx_norm(a) != m:
+            nu += 1
+            if nu <= 3:
+                chk.violation("tie", "UTF-8 decoder model differs from PosixStdinReader's decoder on %r: impl (text, undecoded)=%r model=%r" % (bytes(b), a, m),
+                              {"kind": "utf8"}, {"bytes": b, "impl": sx_norm(a), "model": m}, no_input=True)
+    chk.coverage["input_distribution"]["utf8_scope"] = len(us)
+    chk.coverage["traces_validated_against_impl"] += len(us) - nu
+    chk.coverage["evaluations"] += len(us)
 
     # extraction/driver cross-check inside Coq on a sample
     k = 600 if chk.tier == "thorough" else 150
     idx = sorted(chk.rng.sample(range(len(cases)), min(k, len(cases))))
     pairs = [(cases[i], impl_results[i]) for i in idx]
-    bad, logs = vm_crosscheck(PROP, "run_C03", "Model.C03_Vt100Parser", pairs, per_file=150)
+    bad, logs = vm_crosscheck(PROP, "run_C03_all", "Model.C03_Vt100Parser Model.C03_Vt100Input", pairs, per_file=150)
     chk.coverage["vm_compute_crosschecked"] = len(pairs)
     model_bad = set(i for i, (a, m) in enumerate(zip(impl_results, model_results)) if sx_norm(a) != m)
     vm_bad = set(idx[b] for b in bad if isinstance(b, int))
@@ -526,13 +602,18 @@ def main(tier):
                             "compared after every op (key presses, generator-local prefix, paste flag, paste buffer); every table key; every "
                             "proper prefix of a key x %d probe characters; CPR/mouse complete/truncated/malformed; paste markers "
                             "nested/unterminated/split; exhaustive schedules (all cut sets x flush after any read) of strings of length <= %d; "
-                            "random fragment concatenations to length 60; arbitrary code points; Vt100Input over a pipe with byte-level splits. "
+                            "random fragment concatenations to length 60; arbitrary code points; Vt100Input over a pipe with byte-level splits compared with the byte-level model (keys returned, parser state, undecoded bytes); "
+                            "exhaustive small scopes for the four regexes against re and for the UTF-8 decoder against PosixStdinReader's decoder. "
                             "non-trivial = stream contains ESC, has more than one character and some key press was emitted; distinct by hash of the schedule"
                             % (len(PROBES), 7 if chk.tier == "thorough" else 6))
-    chk.assumptions += ["the parser's pending prefix is read from the suspended generator's frame locals (gi_frame.f_locals['prefix'])",
-                        "PosixStdinReader's incremental UTF-8 decoder is CPython's (the harness decodes the same reads with codecs.getincrementaldecoder)",
-                        "re semantics of the four hard-coded patterns are hand-transcribed (pattern strings checked by gen/gen_t_c03.py; \\d and '.' classes regenerated over the whole code space)",
-                        "termios/raw-mode side of Vt100Input is outside the model"]
+    chk.assumptions += ["the parser's pending prefix is read from the suspended generator's frame locals (gi_frame.f_locals['prefix']); the decoder's undecoded bytes from _stdin_decoder.getstate()[0]",
+                        "regex recognisers: gen/gen_t_c03.py pins the four pattern strings and flags, regenerates re's \\d class and checks '.' excludes only \\n over the whole code space; "
+                        "on this run cpr_re/mouse_re/cpr_prefix_re/mouse_prefix_re were compared with /repo's compiled regexes on EVERY string of length <= 3 over %r and on ESC [ + every tail of length <= %d over it (%d strings). "
+                        "Assumed beyond that scope: the recognisers depend on a character only through its class (\\d, ';', '<', 'M', 'm', 'R', newline, ESC, '[', other - each class has a representative, \\d has three incl. a non-ASCII one), "
+                        "and longer digit/';' runs behave like the runs of length <= %d covered (the recognisers are loops over skip_digits/skip_ds/forallb)" % (RE_ALPHA, 5 if chk.tier == "thorough" else 4, len(rs), 5 if chk.tier == "thorough" else 4),
+                        "UTF-8: the Coq decoder (Model/C03_Vt100Input.v step/dec) was compared with the decoder PosixStdinReader constructs (utf-8, surrogateescape, incremental) on EVERY byte string of length <= %d over the %d class-boundary bytes %r (%d strings), text and undecoded tail; "
+                        "assumed beyond: bytes strictly inside a class behave like its boundaries; other stdin encodings are not modelled" % (4 if chk.tier == "thorough" else 3, len(U8_ALPHA), [hex(b) for b in U8_ALPHA], len(us)),
+                        "PosixStdinReader.read's select/os.read/closed handling and termios/raw mode of Vt100Input are outside the model (reads are modelled as the byte strings os.read returned)"]
     return chk.finish()
 
 
@@ -542,7 +623,7 @@ def replay(data):
     from prompt_toolkit.input.ansi_escape_sequences import ANSI_SEQUENCES
     if "byte_ops" in rep:
         a = impl.run_pipe(rep["byte_ops"])
-        m = run_model("c03", [decode_ops(rep["byte_ops"])])[0]
+        m = run_model("c03", [[7, rep["byte_ops"]]])[0]
         print("impl :", sx_norm(a))
         print("model:", m)
         return 0 if sx_norm(a) == m else 1
